@@ -161,7 +161,9 @@ static void body_immediate(int kind, int dest) {
   ARBITRARY_ACTIVE(f);
   VREACH("arbitrary activated configuration");
   Snapshot old; snap(f, old);
+  g_expect_guards = true;
   call_immediate(f, kind, dest);
+  g_expect_guards = false;
   post_invariant(f);
   if (g_round_cancelled) {
     VASSERT(C04, same_config(f, old), "a vetoed round leaves active and resumable sub-states as they were");
@@ -196,7 +198,7 @@ static void body_queued2(int k1, int d1, int k2, int d2) {
   Snapshot old; snap(f, old);
   call_queued(f, k1, d1); call_queued(f, k2, d2);
   g_issuer = -1; g_issuer2 = -1;
-  f.update();
+  g_expect_guards = true; f.update(); g_expect_guards = false;
   post_invariant(f);
   if (g_round_cancelled) {
     VASSERT(C04, same_config(f, old) && no_lifecycle(), "a vetoed round changes nothing");
@@ -210,7 +212,7 @@ static void body_queued3(int d1, int d2, int d3) {
   Snapshot old; snap(f, old);
   call_queued(f, 0, d1); call_queued(f, 0, d2); call_queued(f, 0, d3);
   g_issuer = -1; g_issuer2 = -1;
-  f.update();
+  g_expect_guards = true; f.update(); g_expect_guards = false;
   post_invariant(f);
   if (g_round_cancelled) { VASSERT(C04, same_config(f, old) && no_lifecycle(), "a vetoed round changes nothing"); }
   else {
@@ -236,7 +238,7 @@ static void body_update(unsigned cfg, int issuer, int kind, int dest) {
   g_issuer = issuer; g_issue_kind = kind; g_issue_dest = dest; g_issuer2 = -1;
   const bool issues = issuer >= 0 && spec_active(f, issuer);
   Snapshot old; snap(f, old);
-  f.update();
+  g_expect_guards = true; f.update(); g_expect_guards = false;
   post_invariant(f);
   if (!issues) {
     VASSERT(C02, same_config(f, old) && no_lifecycle(), "processing with no pending request changes nothing");
@@ -429,16 +431,20 @@ static void body_history_replay(int kind, int dest) {
   }
 }
 // a step with TWO approved rounds: two queued requests, and an entry guard that requests a third transition without vetoing
-static void body_history_rounds(unsigned cfg, int d1, int d2, int guard_state, int d3) {
+static void body_history_rounds(unsigned cfg, int d1, int d2, int guard_state, int d3, int veto2) {
   CONFIGURED(a, cfg);
   Instance r VM_CTOR; copy_configuration(r, a);
-  g_sub_guard = guard_state; g_sub_is_entry = true; g_sub_dest = d3; g_sub_nocancel = true;
+  g_sub_guard = guard_state; g_sub_is_entry = true; g_sub_dest = d3; g_sub_nocancel = true; g_sub_veto2 = veto2 != 0;
   call_queued(a, 0, d1); call_queued(a, 0, d2);
   g_issuer = -1; g_issuer2 = -1;
   a.update();
   VASSERT(C01, inv_config(a) && inv_quiescent(a), "the configuration is well-formed after the step");
   const auto& hist = a.previousTransitions();
-  if (g_sub_done) {
+  if (g_sub_done && g_cancel_round[2]) {
+    VREACH("an approved round followed by a vetoed one");
+    VASSERT(C09/C04, hist.count() == 2, "the history holds the requests of the approved round only");
+    VASSERT(C04/C09, spec_active(a, d2), "an approved round is applied although a later round of the same step is vetoed");
+  } else if (g_sub_done) {
     VREACH("two approved rounds in one step");
     VASSERT(C09, hist.count() == 3, "the history holds the requests of every approved round of the step");
     if (hist.count() == 3) VASSERT(C09, hist[0].destination == (StateID) d1 && hist[1].destination == (StateID) d2 && hist[2].destination == (StateID) d3, "the history lists the applied requests in the order they were applied");
@@ -486,7 +492,11 @@ static int spec_best_child(int region) {
 }
 static float spec_utility(int s) {
   if (VM_SPEC[s].kind == K_LEAF) return g_util_val[s];
-  if (VM_SPEC[s].kind == K_COMPO) { const int b = spec_best_child(s); return g_util_val[s] * (b >= 0 ? spec_utility(b) : 0.0f); }
+  if (VM_SPEC[s].kind == K_COMPO) {
+    const int b = spec_best_child(s);
+    if (!VM_HAS_STUB(s)) return b >= 0 ? spec_utility(b) : 0.0f;      // an anonymous head defines nothing: it counts like the default utility(), 1
+    return g_util_val[s] * (b >= 0 ? spec_utility(b) : 0.0f);
+  }
   float sum = 0.0f; for (int c = s + 1; c < VM_NS; ++c) if (VM_SPEC[c].parent == s) sum += spec_utility(c);
   return g_util_val[s] * (sum / VM_SPEC[s].width);
 }
